@@ -17,7 +17,8 @@ LEVEL = 'exploration'
 RULE = ('per registered strategy (28) and hamming expansion k in {0,1}: generated libraries whose pairs carry a whitelisted / 1-mismatch / '
         'unknown barcode at the positions of the layout table, random inserts 0..150, qualities 0..51, N bases, paired or single end as the '
         'protocol needs; every accepted pair is compared with the table. Non-trivial = accepted pair with insert >= 1 on every mate; '
-        'distinct = distinct (strategy, k, pair id).')
+        'distinct = distinct (strategy, k, pair id).'
+        ' Plus the real demux.py command line on chunked lanes / shuffled arguments / file lists, each output pair checked through the layout table.')
 ASSUMPTIONS = ['vlib/spec/layouts.py is a hand-written specification (trusted)',
                'for content-dependent strategies (TCHIC, CHICTV, DamAndT family) the emitted stretch only has to be a contiguous, index-aligned slice starting at or after the insert start',
                'the emptied 10x whitelist is replaced by a generated one in a scratch barcode directory']
